@@ -14,6 +14,7 @@ package simrt
 import (
 	"fmt"
 	"runtime"
+	"sync"
 	"time"
 )
 
@@ -167,6 +168,11 @@ type Stats struct {
 	HoldPoints     int // scheduling points taken while holding a freshly acquired lock (only when the code under test uses TryLock)
 	MapRanges      int // draws made for the order of map iterations of the code under test
 	LibRandStreams int // 1 if the code under test drew from math/rand's package-level functions
+	Selects        int // select statements of the code under test executed through the deterministic stand-in
+	SelectBlocked  int // ... of which none of the cases was ready and there was no default (the task blocked)
+	TimerResets    int // Reset calls on time.AfterFunc timers of the code under test (each firing runs as its own task)
+	TimerStops     int // Stop calls on such timers
+	TimerUnseen    int // firings of a timer re-armed by a call the instrumentation did not see (allocated late; not replay-safe)
 	Sig            uint64
 	SimNanos       int64
 }
@@ -201,6 +207,10 @@ type Sim struct {
 	LibPanics    []string
 	Fatal        []string
 	tooMany      bool
+
+	tmu    sync.Mutex  // guards ntasks/tasks against the (rare) allocation from a timer goroutine, and timers/queues
+	timers []*timerRec // a slice, not a map: map accesses are reported by the race detector even from go:norace functions
+	selr   *Rand       // stream behind the polling order of select statements in instrumented code
 }
 
 var active *Sim
@@ -307,6 +317,8 @@ func Current() (*Sim, *Task) {
 
 //go:norace
 func (s *Sim) newTask(name string, client, timer bool, parent int) *Task {
+	s.tlock()
+	defer s.tunlock()
 	if s.ntasks >= MaxTasks {
 		s.tooMany = true
 		return nil
@@ -429,7 +441,10 @@ func Go(f func()) {
 	go s.taskMain(t, f)
 }
 
-// AfterFunc is what an instrumented time.AfterFunc calls: the callback runs as a task.
+// AfterFunc is what an instrumented time.AfterFunc calls: every firing of the timer runs the
+// callback as a task of its own. The task of a firing is allocated by the task that arms the timer
+// (here, and in TimerReset), never by the runtime's timer goroutine, so task ids do not depend on
+// how the two race.
 //
 //go:norace
 func AfterFunc(d time.Duration, f func()) *time.Timer {
@@ -445,8 +460,14 @@ func AfterFunc(d time.Duration, f func()) *time.Timer {
 	if t == nil {
 		return time.AfterFunc(d, func() {})
 	}
-	t.timer = time.AfterFunc(d, func() { s.taskMain(t, f) })
-	return t.timer
+	rec := &timerRec{s: s, f: f, parent: parent, queue: []*Task{t}}
+	tm := time.AfterFunc(d, rec.fire)
+	s.tlock()
+	rec.tm = tm
+	t.timer = tm
+	s.timers = append(s.timers, rec)
+	s.tunlock()
+	return tm
 }
 
 // Yield is a plain scheduling point (no-op outside a task).
@@ -1056,12 +1077,11 @@ func (s *Sim) Teardown() int {
 			switch t.state {
 			case stCreated:
 				if t.Timer && t.timer != nil {
-					if t.timer.Stop() {
-						t.state = stDone
-						progress = true
-					} else {
-						remaining++ // fired; goroutine is on its way to its first park
-					}
+					// a pending arming is cancelled; after the wait above a firing that had begun has
+					// reached its first park and taken its task, so what is still in this state never starts
+					t.timer.Stop()
+					t.state = stDone
+					progress = true
 				} else {
 					remaining++
 				}
